@@ -25,13 +25,15 @@ def lin(outs_list, coefs):
     return res
 
 
-def make_transform(ck, kind, force_sym=None):
+def make_transform(ck, kind, force_sym=None, cover=None):
     """returns (name, input shapes, call(list of arrays)->outputs, tol[, layout])"""
     rng = ck.rng
     L = rng.randint(2, 8); m = rng.choice(gen.MODES5)
     w0 = gen.int_filter(rng, L); w1 = gen.int_filter(rng, L)
     nb, c = rng.choice([(1, 2), (2, 1), (2, 2), (2, 3), (3, 2), (1, 33), (2, 17)]) if rng.random() < 0.8 else rng.choice([(1, 33), (1, 40), (2, 17)])
     J = rng.randint(1, 3)
+    if cover is not None:            # deterministic covering configurations: several batch items, several channels, several levels
+        nb, c, J = cover
     if kind == 'DWT1DForward':
         N = max(2, L + rng.randint(0, 12))
         return ('DWT1DForward mode=%s J=%d L=%d' % (gen.MODE_NAME[m], J, L), [(nb, c, N)],
@@ -51,7 +53,7 @@ def make_transform(ck, kind, force_sym=None):
         return ('DWTInverse mode=%s J=%d L=%d' % (gen.MODE_NAME[m], J, L), [yl.shape] + [h.shape for h in yh],
                 lambda xs: rt.run_impl(rt.Case('Z', 'DWTInverse', [m, 2], [w0, w1] + list(xs)), TABLE), 0.0)
     if kind == 'SWTForward':
-        Js = rng.randint(1, 2)
+        Js = rng.randint(1, 2) if cover is None else min(J, 2)
         return ('SWTForward J=%d L=%d' % (Js, L), [(nb, c, 4 * rng.randint(1, 3), 4 * rng.randint(1, 3))],
                 lambda xs: rt.run_impl(rt.Case('Z', 'SWTForward', [2, Js, 2], [w0, w1, xs[0]]), TABLE), 0.0)
     filt = dt_filters(rng)
@@ -98,9 +100,9 @@ def put(z, x, n0, c0, lay):
     z[tuple(idx)] = x[tuple(idx)]
 
 
-def oracle_linear(ck, kind, force_sym=None, zero_k=None):
+def oracle_linear(ck, kind, force_sym=None, zero_k=None, cover=None, absent_low=False):
     rng = ck.rng
-    mt = make_transform(ck, kind, force_sym)
+    mt = make_transform(ck, kind, force_sym, cover)
     name, shapes, call, tol = mt[:4]
     lay = mt[4] if len(mt) > 4 else None
     xs = [gen.int_tensor(rng, s, 5) for s in shapes]
@@ -110,14 +112,17 @@ def oracle_linear(ck, kind, force_sym=None, zero_k=None):
     elif len(xs) > 1 and rng.random() < 0.4:
         # one argument of x is present but identically zero (a thresholded band): still an ordinary linear input
         k = rng.randrange(len(xs)); xs[k] = np.zeros_like(xs[k])
+    if absent_low:                   # the documented "no low-pass" call of the inverse DTCWT: linear in the band-pass levels alone
+        xs[0] = None; ys[0] = None
+        name += ' low-pass absent'
     a, b = rng.randint(-4, 4), rng.randint(-4, 4)
     replay = {'oracle': 'linear', 'kind': kind, 'note': 'configuration drawn from the check PRNG: re-run with the same VERIF_SEED'}
     tx, ty = call(xs), call(ys)
     if isinstance(tx, tuple) or isinstance(ty, tuple):
         ck.oracle_ok(('raises', kind), nontriv=False, group='raises')
         return None
-    tz = call([a * x + b * y for x, y in zip(xs, ys)])
-    t0 = call([np.zeros_like(x) for x in xs])
+    tz = call([None if x is None else a * x + b * y for x, y in zip(xs, ys)])
+    t0 = call([None if x is None else np.zeros_like(x) for x in xs])
     if isinstance(tz, tuple) or isinstance(t0, tuple):
         ck.fail(name + ': raises on a linear combination / on zero of inputs it accepts', replay); return 'raise'
     ok, why = same(tz, lin([tx, ty], [a, b]), tol)
@@ -127,7 +132,7 @@ def oracle_linear(ck, kind, force_sym=None, zero_k=None):
         ck.fail(name + ': T(0) != 0', replay); return 'diff'
     # per-slice: every (n, c) slice alone gives the same slice of the output; other slices do not matter
     nb, c = shapes[0][0], shapes[0][1]
-    n0, c0 = rng.randrange(nb), rng.randrange(c)
+    n0, c0 = (rng.randrange(nb), rng.randrange(c)) if cover is None else (nb - 1, c - 1)
     alone = call([take(x, n0, c0, lay) for x in xs])
     if isinstance(alone, tuple):
         ck.fail(name + ': raises on a single (batch, channel) slice', replay); return 'raise'
@@ -135,9 +140,10 @@ def oracle_linear(ck, kind, force_sym=None, zero_k=None):
     ok, why = same(alone, want, tol)
     if not ok:
         ck.fail(name + ': slice (%d,%d) of the batched output differs from transforming the slice alone: %s' % (n0, c0, why), replay); return 'diff'
-    zs = [gen.int_tensor(rng, s, 5) for s in shapes]
+    zs = [None if x is None else gen.int_tensor(rng, s, 5) for s, x in zip(shapes, xs)]
     for z, x in zip(zs, xs):
-        put(z, x, n0, c0, lay)
+        if x is not None:
+            put(z, x, n0, c0, lay)
     tz2 = call(zs)
     ok, why = same([take(o, n0, c0, lay) for o in tz2], want, tol)
     if not ok:
@@ -160,6 +166,13 @@ def run(ck):
     st = rt.correspond('impl-model(dwt)', dwt_cases(ck, 150 if q else 1500, ['afb1d', 'sfb1d', 'afb1d_atrous', 'AFB2D_fwd', 'SFB2D_fwd', 'DWTForward']), TABLE)
     st2 = rt.correspond('impl-model(dtcwt)', dtcwt_cases(ck, 140 if q else 1400, ['coldfilt', 'rowdfilt', 'colifilt', 'rowifilt', 'colfilter', 'DTCWTForward', 'DTCWTInverse']), TABLE)
     ck.corr += [st, st2]
+    # covering configurations first (independent of the seed): every transform with several batch items, several channels and
+    # several levels, the last slice looked at; the inverse DTCWT also without a low-pass
+    for kind in KINDS:
+        for cov in ((2, 3, 2), (1, 2, 3)):
+            rt.guard(ck, oracle_linear, ck, kind, None, None, cov)
+    for cov in ((2, 3, 2), (1, 2, 1)):
+        rt.guard(ck, oracle_linear, ck, 'DTCWTInverse', None, None, cov, True)
     for it in range(70 if q else 700):
         rt.guard(ck, oracle_linear, ck, KINDS[it % len(KINDS)])
     # present-but-zero arguments in both padding modes: every argument position of the inverse transforms in turn
